@@ -378,7 +378,7 @@ def run_scenario(e, scenario, variant, seed, ctx_rng_seed):
 OPT_OUT_PARAMS = ("copy_x", "copy_X", "copy")
 
 
-def run_guided(e, override, variant, seed, ctx_rng_seed):
+def run_guided(e, override, variant, seed, ctx_rng_seed, fail_at=None):
     """The menu entry with some hyper-parameters replaced by values the CURRENT SOURCE compares them with
     (`_guided`).  Such a configuration may be one `fit` or an observer legitimately refuses: whatever a call does -
     return or raise - it must leave get_params and the caller's data as they were, and a successful fit returns self."""
@@ -388,7 +388,8 @@ def run_guided(e, override, variant, seed, ctx_rng_seed):
     warnings.filterwarnings("ignore")
     rng = random.Random(ctx_rng_seed)
     X, y, w = _menu.make_data(e.data, rng, variant)
-    inner = _menu.failing(_menu.inner_base(e.inner_kind), _menu.Counter(None)) if e.inner_kind else None
+    counter = _menu.Counter(fail_at)
+    inner = _menu.failing(_menu.inner_base(e.inner_kind), counter) if e.inner_kind else None
     est = _guided.apply(e, override, inner)
     if est is None:
         return [], False
@@ -486,16 +487,18 @@ def search(ctx, hints):
                if not any(k in OPT_OUT_PARAMS for k in o)]
         for ov in ovs:
             seed, dseed = ctx.rng.randrange(1 << 30), ctx.rng.randrange(1 << 30)
-            with contextlib.redirect_stdout(io.StringIO()), contextlib.redirect_stderr(io.StringIO()):
-                bad, executed = run_guided(e, ov, 0, seed, dseed)     # (verbose=True is one of the values)
-            evals += 1
-            if executed:
-                guided += 1
-                nontriv.add((e.name, "guided", tuple(sorted(ov.items(), key=str))))
-            for key, what, obs, req in bad:
-                if key not in vs:
-                    vs[key] = Violation(key, what, {"entry": e.name, "scenario": ["guided", None], "override": ov,
-                                                    "variant": 0, "seed": seed, "dseed": dseed}, obs, req)
+            # the plain run, and (wrappers) the inner estimator failing on its 1st / 2nd fit
+            for fail_at in ([None, 1, 2] if e.inner_kind else [None]):
+                with contextlib.redirect_stdout(io.StringIO()), contextlib.redirect_stderr(io.StringIO()):
+                    bad, executed = run_guided(e, ov, 0, seed, dseed, fail_at)     # (verbose=True is one of the values)
+                evals += 1
+                if executed:
+                    guided += 1
+                    nontriv.add((e.name, "guided", tuple(sorted(ov.items(), key=str)), fail_at))
+                for key, what, obs, req in bad:
+                    if key not in vs:
+                        vs[key] = Violation(key, what, {"entry": e.name, "scenario": ["guided", fail_at], "override": ov,
+                                                        "variant": 0, "seed": seed, "dseed": dseed}, obs, req)
     return list(vs.values()), {"evaluations": evals, "distinct_nontrivial": len(nontriv), "samples": samples,
                                "source_driven_configurations": guided,
                                "explanations_of_rejected_skeletons": expl}
@@ -525,7 +528,7 @@ def replay(ctx, item):
     menu = {e.name: e for e in _menu.build_menu()}
     e = menu[inp["entry"]]
     if inp["scenario"][0] == "guided":
-        bad, _ = run_guided(e, inp["override"], inp["variant"], inp["seed"], inp["dseed"])
+        bad, _ = run_guided(e, inp["override"], inp["variant"], inp["seed"], inp["dseed"], inp["scenario"][1])
     else:
         bad, _ = run_scenario(e, tuple(inp["scenario"]), inp["variant"], inp["seed"], inp["dseed"])
     return [Violation(k, w, inp, o, r) for k, w, o, r in bad if k == item["key"]] or \
